@@ -280,6 +280,11 @@ func C08(c *ev.Ctx) {
 				viol("hash-error", err.Error())
 				return
 			}
+			// the multihash is the hash under the algorithm it names: recomputed independently (crypto/sha256, crypto/sha512,
+			// hand-encoded multihash) over the canonical bytes
+			if canon, cerr := canonicalizer.MarshalCanonical(spell(base, "canonical")); cerr != nil || ref != rawMultihash(byte(cs.C.Alg), digestOf(cs.C.Alg, canon)) {
+				viol("hash-is-not-the-named-algorithm-over-the-canonical-form", map[string]interface{}{"library": ref, "independent": rawMultihash(byte(cs.C.Alg), digestOf(cs.C.Alg, canon))})
+			}
 			for _, alt := range alterations(cs.C.Alteration) {
 				var v interface{} = parseNumBytes(alt)
 				text := spell(v, cs.C.Spelling)
